@@ -115,12 +115,16 @@ def MsgOk (fn : Nat → Nat) (s : State) : Msg → Prop
 structure Inv (fn : Nat → Nat) (s : State) : Prop where
   pend_lt : ∀ wid ∈ s.pending_work_items, wid < s.futures.length
   unres_pend : ∀ (wid : Nat) (r : FutRec), s.futures[wid]? = some r → r.st.unresolved = true → wid ∈ s.pending_work_items
-  ids_pend : s.mgr = .running ∨ s.mgr = .notStarted → ∀ wid ∈ s.work_ids, wid ∈ s.pending_work_items
+  ids_pend : s.mgr = .running ∨ s.mgr = .notStarted →
+    ∀ wid ∈ s.work_ids, wid ∈ s.pending_work_items ∧ wid ∉ s.running_work_items
   res_ok : ∀ (wid : Nat) (r : FutRec) (v : Nat), s.futures[wid]? = some r → r.st = Fut.result v → v = fn r.arg
   cq_ok : ∀ it ∈ s.call_queue, ItemOk s it
   cur_ok : ∀ w ∈ s.processes, ∀ it, w.current = some it → ItemOk s it
   pipe_ok : ∀ m ∈ s.result_pipe, MsgOk fn s m
   not_crashed : s.mgr ≠ .crashed
+  ids_lt : ∀ wid ∈ s.work_ids, wid < s.futures.length
+  ids_nodup : s.work_ids.Nodup
+  run_lt : ∀ wid ∈ s.running_work_items, wid < s.futures.length
 
 /-- What every event guarantees about the three containers `ItemOk`/`MsgOk` look at. -/
 structure Frame (s s' : State) : Prop where
@@ -176,10 +180,14 @@ theorem Inv.of_frame {fn : Nat → Nat} {s s' : State} (h : Inv fn s) (hF : Fram
     (hpipe : ∀ m ∈ s'.result_pipe, m ∈ s.result_pipe ∨ MsgOk fn s' m)
     (h1 : ∀ wid ∈ s'.pending_work_items, wid < s'.futures.length)
     (h2 : ∀ (wid : Nat) (r : FutRec), s'.futures[wid]? = some r → r.st.unresolved = true → wid ∈ s'.pending_work_items)
-    (h3 : s'.mgr = .running ∨ s'.mgr = .notStarted → ∀ wid ∈ s'.work_ids, wid ∈ s'.pending_work_items)
+    (h3 : s'.mgr = .running ∨ s'.mgr = .notStarted →
+      ∀ wid ∈ s'.work_ids, wid ∈ s'.pending_work_items ∧ wid ∉ s'.running_work_items)
     (h4 : ∀ (wid : Nat) (r : FutRec) (v : Nat), s'.futures[wid]? = some r → r.st = Fut.result v → v = fn r.arg)
-    (h5 : s'.mgr ≠ .crashed) : Inv fn s' := by
-  refine ⟨h1, h2, h3, h4, ?_, ?_, ?_, h5⟩
+    (h5 : s'.mgr ≠ .crashed)
+    (h6 : ∀ wid ∈ s'.work_ids, wid < s'.futures.length)
+    (h7 : s'.work_ids.Nodup)
+    (h8 : ∀ wid ∈ s'.running_work_items, wid < s'.futures.length) : Inv fn s' := by
+  refine ⟨h1, h2, h3, h4, ?_, ?_, ?_, h5, h6, h7, h8⟩
   · intro it hit
     rcases hcq it hit with h' | h'
     · exact hF.item (h.cq_ok it h')
@@ -194,6 +202,6 @@ theorem Inv.of_frame {fn : Nat → Nat} {s s' : State} (h : Inv fn s) (hF : Fram
     · exact h'
 
 theorem inv_init (fn : Nat → Nat) (mw qs fp : Nat) : Inv fn (State.init mw qs fp) := by
-  refine ⟨?_, ?_, ?_, ?_, ?_, ?_, ?_, ?_⟩ <;> simp [State.init]
+  refine ⟨?_, ?_, ?_, ?_, ?_, ?_, ?_, ?_, ?_, ?_, ?_⟩ <;> simp [State.init]
 
 end JoblibModel.LokyMgr
